@@ -114,14 +114,14 @@ def theorem_domain(rep, model, modules):
                 else:
                     rep.bump('theorem_domain_variables_outside')
             elif d[0] == 'class':
-                # the class without template, base, static methods, operators and dunder methods, and with the
-                # constructors, methods, properties and nested enums the model accepts one by one
+                # the class without template, base, operators and dunder methods, and with the constructors, methods,
+                # static methods, properties and nested enums the model accepts one by one
                 empty = ['class', [], d[2], d[3], [], [], [], [], [], [], [], []]
                 if not model.ask('printdecls', [empty]).startswith('ok '):
                     rep.bump('theorem_domain_classes_outside')
                     continue
                 kept = list(empty)
-                for slot, what in ((5, 'constructors'), (6, 'methods'), (9, 'properties'), (11, 'enums')):
+                for slot, what in ((5, 'constructors'), (6, 'methods'), (7, 'static_methods'), (9, 'properties'), (11, 'enums')):
                     for m in d[slot]:
                         one = list(empty)
                         one[slot] = [m]
@@ -133,7 +133,7 @@ def theorem_domain(rep, model, modules):
                 out.append(kept)
                 rep.bump('theorem_domain_classes_inside')
                 rep.coverage['theorem_domain_max_members'] = max(rep.coverage.get('theorem_domain_max_members', 0),
-                                                                 len(kept[5]) + len(kept[6]) + len(kept[9]) + len(kept[11]))
+                                                                 len(kept[5]) + len(kept[6]) + len(kept[7]) + len(kept[9]) + len(kept[11]))
             elif d[0] == 'ns':
                 out.append(['ns', d[1], prune(d[2], depth + 1)])
                 rep.bump('theorem_domain_namespaces')
